@@ -223,6 +223,13 @@ def run(ctx):
         if body is None:
             continue
         ctx.analysed(body)
+        if not calls_to(body, "NodeMap::check_hosts"):
+            # host validation moved into a private helper: analyse the function with such helpers inlined (the block
+            # ids of the original function are preserved, so the writer blocks found above stay valid)
+            from ..inline import inlined
+            b2 = inlined(F, body)
+            if b2 is not None and calls_to(b2, "NodeMap::check_hosts"):
+                body = b2
         du = DefUse(body)
         is_msg = lambda sl: sl.has_call("ProxyClusterMeta::get_epoch")
         is_inst = lambda sl: (MM, "epoch") in sl.fields
@@ -601,6 +608,11 @@ def _refused_leaves_no_trace(ctx):
             ctx.lost("C05.D6", name.rsplit("::", 1)[-1], "%s not found" % name)
             continue
         ctx.analysed(b)
+        if not agg_sites(b, "ClusterMetaError", "NotMyMeta") and not any((callee_of(t) or "").endswith("check_hosts") for bb, t in b.calls()):
+            from ..inline import inlined
+            b2 = inlined(F, b)
+            if b2 is not None:
+                b = b2
         du = DefUse(b)
         refusals = [bb for bb, i, st in agg_sites(b, "ClusterMetaError", "NotMyMeta")]
         # refusals produced by a helper (check_hosts): the `?` / match that returns its Err
